@@ -485,6 +485,11 @@ def scenario(s, spec):
         for rec, fut in pending:
             finish(rec, fut.wait)
 
+    if spec.get("lines"):
+        # every source line of the accept-or-reject / stop / queue hand-over code becomes a scheduling point
+        import qmi.core.rpc as R
+        dsched.enable_line_yields([R.RpcObjectManager.handle_message, R.RpcObjectManager.stop, R._RpcThread.push_rpc_request,
+                                   R._RpcThread._reject_remaining_requests, R.QMI_RpcFuture._set_result])
     s.recording = True
     for i, kinds in enumerate(spec["local"]):
         t = real_threading.Thread(target=caller, args=("L%d" % i, lp, kinds, spec["nb"]), name="L%d" % i)
